@@ -332,6 +332,17 @@ def discharge(ex, res, keep_models, timeout_ms):
                         ob['counterexample'] = None
                         ob['note'] += ' [concretise failed: %s]' % e
                 break
+            if st == 'unknown' and kind in KIND_IS_CLAUSE and not ex.c.ident.startswith('lemma::') and keep_models:
+                # undecided: look for a candidate counter-model of the quantifier-free part and *replay* it on the
+                # real code; only a reproduced concrete contract failure turns "undecided" into "refuted" (DESIGN 3.2)
+                cand = candidate_refutation(vc, ex)
+                if cand is not None:
+                    ob['status'] = 'refuted'
+                    ob['note'] = (vc.note + ' [refuted by replayed candidate model of the quantifier-free part]').strip()
+                    ob['model'] = cand['model']
+                    ob['counterexample'] = cand['counterexample']
+                    ob['replayed'] = cand['replay']
+                    break
             if st == 'unknown' and ob['status'] == 'proved':
                 ob['status'] = 'unknown'
                 ob['note'] = vc.note
@@ -351,6 +362,33 @@ def discharge(ex, res, keep_models, timeout_ms):
     if not res.obligations:
         res.status = 'ERROR'
         res.detail = 'no obligations generated'
+
+
+def candidate_refutation(vc, ex, tries=3):
+    from . import replay as RP
+    try:
+        for attempt in range(tries):
+            s = z3.Solver()
+            s.set('timeout', 4000)
+            s.set('random_seed', attempt)
+            for p in vc.pc:
+                if not _has_quant(p):
+                    s.add(p)
+            if _has_quant(vc.goal):
+                return None
+            s.add(z3.Not(vc.goal))
+            if s.check() != z3.sat:
+                return None
+            m = s.model()
+            cx = RP.concretise(m, vc, ex, ex.c, ex.f)
+            if cx is None:
+                return None
+            out = RP.run(ex.c.ident, cx)
+            if out.get('reproduced'):
+                return {'model': model_summary(m, vc, ex), 'counterexample': cx, 'replay': out}
+    except Exception:
+        return None
+    return None
 
 
 def model_summary(model, vc, ex):
